@@ -153,6 +153,7 @@ func runC04(c *Check) {
 	c.unsymbolizedFramesInTree()
 	c.divisorUnmodified()
 	c.pseudoFramesOnEverySample()
+	c.flagGuardCoversBody("C04-R12", "profile", "Aggregate")
 }
 
 // R5b: edge weights are de-duplicated per (caller, callee) pair and per sample: the
